@@ -479,3 +479,30 @@ def parallel_cases(ctx, fn, args_list, jobs=8):
                 errors.append(r["error"])
     if errors:
         raise HarnessError(errors[0])
+
+
+def replay_by_seed(prop, path):
+    """replay of a recorded failure whose input is a generated case: the cases of a run are a function of (tier, VERIF_SEED), so the
+    recorded run is repeated on the CURRENT source with that seed and tier (evidence and replay files go to a scratch directory, never
+    into /verif/evidence) and the outcome is reported: exit 1 if the property fails again (the first failure is printed next to the
+    recorded one), exit 0 if it holds on the regenerated cases"""
+    import json
+    import shutil
+    import tempfile
+    r = json.loads(Path(path).read_text())
+    seed, tier = str(r.get("seed", 0)), r.get("tier", "quick")
+    print("recorded:", json.dumps(r.get("what") or r.get("no_longer_checks"))[:1500])
+    scratch = Path(tempfile.mkdtemp(prefix=f"replay-{prop}-", dir=str(VERIF / "harness" / ".work")))
+    try:
+        env = dict(os.environ, VERIF_SEED=seed, VERIF_EVIDENCE_DIR=str(scratch / "evidence"), VERIF_REPLAY_DIR=str(scratch / "replay"))
+        p = subprocess.run([sys.executable, str(VERIF / "harness" / "vcheck.py"), prop, "--tier", tier], env=env, cwd=str(VERIF),
+                           stdout=subprocess.PIPE, stderr=subprocess.STDOUT, text=True)
+        tail = [l for l in p.stdout.splitlines() if l.startswith("VIOLATION") or l.startswith("KNOWN-FINDING") or l.startswith("[" + prop)]
+        print("\n".join(tail[-4:]))
+        again = sorted((scratch / "replay").glob("*.json")) if (scratch / "replay").exists() else []
+        if again:
+            print("now:", json.dumps(json.loads(again[0].read_text()).get("what"))[:1500])
+        print(f"replay: seed {seed}, tier {tier}: the property {'FAILS again' if p.returncode == 1 else 'holds' if p.returncode == 0 else 'could not be evaluated (harness exit %d)' % p.returncode} on the regenerated cases")
+        return p.returncode
+    finally:
+        shutil.rmtree(scratch, ignore_errors=True)
